@@ -317,7 +317,11 @@ func judge(code []byte, size, L int, off int64, fixed []byte, n int, ferr error)
 	return "", "", shp, false
 }
 
-var offsets = []int64{1 << 6, -(1 << 6), 1 << 12, -(1 << 12), 1 << 20, -(1 << 20), 1 << 27, -(1 << 27), 1<<31 - 1<<12, -(1<<31 - 1<<12)}
+var offsets = []int64{1 << 12, -(1 << 12), 1 << 20, -(1 << 20), 1 << 27, -(1 << 27), 1<<31 - 1<<12, -(1<<31 - 1<<12)}
+
+// nearOffsets: placeholders next to the function (every 32-byte slot within +-256 bytes that does
+// not overlap the copied prefix), where short branches stay short or sit at the rel8 boundary.
+var nearOffsets = []int64{32, 64, 96, 128, 160, 192, 224, 256, -32, -64, -96, -128, -160, -192, -224, -256}
 
 // scratch placeholder: an executable-looking function body outside the Go heap into which the
 // real apply path writes the complete trampoline.
@@ -363,6 +367,10 @@ func judgeCompose(from uintptr, code []byte, size, L int) (clause, detail string
 			return "refused-but-placeholder-written", fmt.Sprintf("the apply was refused (%v) but the placeholder's bytes changed", cerr), true
 		}
 		return "", "", false
+	}
+	if scratchIntact() {
+		// the apply path reported success, so the placeholder must now hold the relocated prologue
+		return "accepted-without-trampoline", fmt.Sprintf("the apply with an origin placeholder was accepted but the placeholder's bytes are unchanged: no trampoline was built (the relocation by itself: err=%v)", ferr), true
 	}
 	if ferr != nil {
 		return "", "", false // goom's own extent scan of the function differs from ours; nothing to compare
@@ -414,6 +422,7 @@ func static(c *vk.Ctx) {
 	if !c.Thorough() {
 		offs = []int64{1 << 12, -(1 << 12), 1 << 27, -(1<<31 - 1<<12)}
 	}
+	offs = append(append([]int64{}, offs...), nearOffsets...)
 	type agg struct {
 		count int
 		fn    fn
